@@ -215,10 +215,23 @@ func (e *tieEnc) schange(c schema.Change) {
 }
 
 // tieCase encodes the run for the model; cur is the inspected current schema (foreign keys of the state).
-func tieCase(ctx context.Context, before *Dump, cur *schema.Schema, changes []schema.Change, fk, intx bool, k int) (string, string) {
+// txTok: how the plan is run -- 0: on the connection (--tx-mode none), 1: through client.Tx = sqlite.OpenTx
+// (--tx-mode file), 2: inside a plain sql.Tx.  fk is the connection's own setting (_fk); what OpenTx does
+// with it is the model's business (RowsModel.schema_apply).
+func txTok(tx string) int {
+	switch tx {
+	case "file":
+		return 1
+	case "rawtx":
+		return 2
+	}
+	return 0
+}
+
+func tieCase(ctx context.Context, before *Dump, cur *schema.Schema, changes []schema.Change, fk bool, tx string, k int) (string, string) {
 	e := &tieEnc{ctx: ctx}
 	// k >= 0: only the first k statements of the plan are executed
-	e.add(b01(fk), b01(intx), fmt.Sprint(k), fmt.Sprint(len(before.Names)))
+	e.add(b01(fk), fmt.Sprint(txTok(tx)), fmt.Sprint(k), fmt.Sprint(len(before.Names)))
 	// tables in creation order would need sqlite_master.rowid; the model does not depend on the order
 	for _, n := range before.Names {
 		t := before.Tables[n]
